@@ -29,7 +29,7 @@ func genCase(t *rapid.T) Case {
 	style := rapid.SampledFrom([]string{"dollar", "dollar", "qmark", "none"}).Draw(t, "style")
 	n := rapid.IntRange(0, 8).Draw(t, "pieces")
 	bigAt := -1
-	if style == "qmark" && n > 0 && rapid.IntRange(0, 9).Draw(t, "many-markers") == 0 {
+	if style != "none" && n > 0 && rapid.IntRange(0, 99).Draw(t, "many-markers") == 57 {
 		bigAt = rapid.IntRange(0, n-1).Draw(t, "big-at")
 	}
 	for i := 0; i < n; i++ {
@@ -43,6 +43,12 @@ func genCase(t *rapid.T) Case {
 				p.N = strconv.Itoa(rapid.IntRange(0, 70000).Draw(t, "n"))
 			default:
 				p.N = strconv.Itoa(rapid.IntRange(0, 12).Draw(t, "n"))
+			}
+			if i == bigAt {
+				// tens of thousands of repetitions of one small index; a higher index may only follow later
+				p.N = strconv.Itoa(rapid.IntRange(1, 3).Draw(t, "repeated-n"))
+				p.Rep = rapid.SampledFrom([]int{1000, 65533, 65534, 65535, 65536, 70000}).Draw(t, "rep")
+				p.Sep = ","
 			}
 			if strings.HasSuffix(p.Filler, "$") && p.Filler != "\\$" {
 				// "$" + "$5" would read as "$$5": still one marker; fine either way
@@ -81,7 +87,13 @@ func TestBoundaries(t *testing.T) {
 		q := strings.Repeat("?", k)
 		core.RunCase(t, "bounds", Case{Raw: &q, E2E: true}, Run)
 	}
-	core.MarkExhaustive("bounds (index boundary table x 7 templates)")
+	for _, k := range []int{65533, 65534, 65535, 65536, 70000} {
+		for _, tail := range []string{"", ",$2", ",$7", ",$65535", ",$65536", ",$99999999999999999999"} {
+			q := strings.Repeat("$1,", k-1) + "$1" + tail
+			core.RunCase(t, "bounds", Case{Raw: &q, E2E: k == 65536 && tail == ",$2"}, Run)
+		}
+	}
+	core.MarkExhaustive("bounds (index boundary table x 7 templates; 65533..70000 repeated markers x 6 tails)")
 }
 
 func FuzzParseParameters(f *testing.F) {
